@@ -590,17 +590,63 @@ def check_stored_generator(ctx, repo, mods):
                            ctx.loc(hit[0].module, hit[1]))
 
 
+def dependency_classes(repo, mods, depth=3):
+    """Repo classes the anchored code depends on: (a) classes constructed in functions reached (resolved calls, bounded depth) from the
+    anchored functions/methods, (b) concrete subclasses of anchored classes (they supply the hooks of the anchored template methods)."""
+    flow = Flow(repo)
+    anchored = {m.relpath for m in mods}
+    constructed = {}
+    seen = set()
+    work = []
+    for m in mods:
+        for q, fn, c in functions_of(repo, m):
+            work.append((fn, m, c, 0, q))
+    while work:
+        fn, m, c, d, origin = work.pop()
+        if id(fn) in seen:
+            continue
+        seen.add(id(fn))
+        for call in astq.calls(fn):
+            t = flow.resolve_call(call, m, c, c)
+            if t.kind == "class" and t.cls is not None and ".tests" not in t.cls.module.name:
+                constructed.setdefault(t.cls.qual, (t.cls, origin))
+                if d < depth and "__init__" in t.cls.methods:
+                    work.append((t.cls.methods["__init__"], t.cls.module, t.cls, d + 1, origin))
+            elif t.kind in ("method", "func") and t.func is not None and d < depth:
+                work.append((t.func, t.module, t.cls if t.kind == "method" else None, d + 1, origin))
+    subs = {}
+    for m in mods:
+        for c in classes_of(repo, m):
+            for k in repo.subclasses(c):
+                if k.module.relpath not in anchored and not k.module.name.startswith(repo.package + ".contrib"):
+                    subs.setdefault(k.qual, (k, c.name))
+    return constructed, subs
+
+
 def check_apply_state_writes(ctx, repo, mods, eng):
     """R7 (H3): predict / predict_proba / transform / inverse_transform do not write, in place, into an object that is stored on
     self when the call starts (fitted arrays, lists of fitted members, constructor parameters) -- directly, through a view / element,
     or inside a helper.  Such a write changes the estimator: the next call (or the same call on other data) sees the modified state."""
-    for m in mods:
-        for c in classes_of(repo, m):
+    anchored = {m.relpath for m in mods}
+    constructed, subs = dependency_classes(repo, mods)
+    scope_classes = [(c, "anchored") for m in mods for c in classes_of(repo, m)]
+    # member objects the anchored estimators construct and apply (e.g. the SFA transformer inside BOSS)
+    scope_classes += [(c, "constructed by %s" % o) for q_, (c, o) in sorted(constructed.items()) if c.module.relpath not in anchored]
+    # concrete subclasses: only apply-type *template* methods inherited from an anchored module, with the subclass's hooks resolved
+    scope_classes += [(c, "hooks of %s" % b) for q_, (c, b) in sorted(subs.items()) if c.qual not in constructed]
+    done = set()
+    for c, role in scope_classes:
+        if c.qual in done:
+            continue
+        done.add(c.qual)
+        if True:
             for meth in APPLY:
                 hit = repo.lookup_method(c, meth)
                 if hit is None or hit[0].is_static(meth):
                     continue
                 k, fn = hit
+                if role.startswith("hooks of") and k.module.relpath not in anchored:
+                    continue  # the subclass overrides the whole template: not the anchored code path
                 s_ = eng.summary(fn, k.module, c, k)
                 groups = {}
                 for ev in s_.events:
@@ -615,10 +661,10 @@ def check_apply_state_writes(ctx, repo, mods, eng):
                                       "second call -- or the same estimator applied to other data afterwards -- works on modified fitted state"
                                       % (tag, desc, origin, where), evs[0].loc, witness={"attribute": origin, "sink": desc, "sites": where})
                     else:
-                        ctx.undecided("R7", key, "an in-place sink (%s) is reached through a value with unknown relation to %s [%s]" % (desc, origin, where),
-                                      evs[0].loc)
-                if not groups:
-                    ctx.ok("R7", tag, "no in-place write into an object stored on self", ctx.loc(k.module, fn), nontrivial=False)
+                        # results of untabled methods of member objects (library results, wrapped estimators): relation unknown -> not judged
+                        ctx.info("R7 not judged: %s reaches an in-place sink (%s) through a value with unknown relation to %s [%s]" % (tag, desc, origin, where))
+                if not any(e.sure for evs in groups.values() for e in evs):
+                    ctx.ok("R7", tag, "no in-place write into an object stored on self (%s)" % role, ctx.loc(k.module, fn), nontrivial=False)
 
 
 def check_derived_state(ctx, repo, mods):
@@ -705,6 +751,56 @@ def holds_function(expr, local_defs, local_lambdas):
     if isinstance(expr, ast.Starred):
         return holds_function(expr.value, local_defs, local_lambdas)
     return None
+
+
+def check_reduce(ctx, repo, mods):
+    """R4 (b): a class whose instances are part of the estimators' state and that customises pickling / copying with ``__reduce__`` must
+    hand *every* constructor argument that __init__ stores back to the constructor; an omitted argument silently takes its default in the
+    restored copy (pickle.loads(pickle.dumps(est)), copy.deepcopy and joblib process workers all go through __reduce__)."""
+    anchored = {m.relpath for m in mods}
+    constructed, subs = dependency_classes(repo, mods)
+    classes = [c for m in mods for c in classes_of(repo, m)] + [c for q_, (c, o) in sorted(constructed.items()) if c.module.relpath not in anchored]
+    n = 0
+    for c in classes:
+        hit = repo.lookup_method(c, "__reduce__") or repo.lookup_method(c, "__reduce_ex__")
+        if hit is None:
+            n += 1
+            continue
+        k, fn = hit
+        loc = ctx.loc(k.module, fn)
+        key = "%s.%s" % (c.name, fn.name)
+        init = repo.lookup_method(c, "__init__")
+        rets = astq.returns(fn)
+        if init is None or len(rets) != 1 or not isinstance(astq.inline_locals(fn, rets[0].value), ast.Tuple):
+            ctx.undecided("R4", key, "custom pickling protocol not interpretable", loc)
+            continue
+        tup = astq.inline_locals(fn, rets[0].value)
+        if len(tup.elts) != 2:
+            ctx.ok("R4", key, "__reduce__ returns an explicit state (%d-tuple)" % len(tup.elts), loc, nontrivial=False)
+            continue
+        ctor, args = tup.elts
+        ctor_ok = astq.canon(ctor) in ("type(self)", "self.__class__", c.name)
+        if not ctor_ok or not isinstance(args, ast.Tuple) or any(isinstance(a, ast.Starred) for a in args.elts):
+            ctx.undecided("R4", key, "__reduce__ does not return (type(self), (<arguments>,))", loc)
+            continue
+        ifn = init[1]
+        params = astq.param_names(ifn, skip_self=True)
+        defaults = astq.param_defaults(ifn)
+        stored = {p for p in params if any(isinstance(x, ast.Name) and x.id == p for _, v, _s in astq.self_attr_stores(ifn) if v is not None
+                                           for x in ast.walk(v))}
+        # a parameter also counts as stored when a local derived from it is stored
+        for p in params:
+            for nm in {t.id for a_ in ast.walk(ifn) if isinstance(a_, ast.Assign) for t in a_.targets if isinstance(t, ast.Name)
+                       if any(isinstance(x, ast.Name) and x.id == p for x in ast.walk(a_.value))}:
+                if any(isinstance(x, ast.Name) and x.id == nm for _, v, _s in astq.self_attr_stores(ifn) if v is not None for x in ast.walk(v)):
+                    stored.add(p)
+        missing = [p for p in params[len(args.elts):] if p in stored]
+        ctx.check(not missing, "R4", key, "__reduce__ hands all %d stored constructor arguments back" % len(args.elts),
+                  "%s.__reduce__ rebuilds the object from %s only: the constructor argument(s) %s, which __init__ stores, are dropped, so a "
+                  "pickled / deep-copied instance (and every estimator holding one) silently gets the default(s) %s"
+                  % (c.name, ast.unparse(args), ", ".join(missing), ", ".join("%s=%s" % (p, ast.unparse(defaults[p])) for p in missing if p in defaults)),
+                  loc, witness={"dropped": missing})
+    ctx.count("classes_checked_for_reduce", n)
 
 
 def check_pickle(ctx, repo, mods):
@@ -1297,6 +1393,7 @@ def run(ctx):
     check_derived_state(ctx, repo, mods)
     check_apply_state_writes(ctx, repo, mods, eng)
     check_pickle(ctx, repo, mods)
+    check_reduce(ctx, repo, mods)
     check_parallel(ctx, repo, mods)
     check_parallel_siblings(ctx, repo, mods)
     # floors = instance counts confirmed by hand on commit 132f3d5 (minus a small margin for refactorings)
@@ -1304,6 +1401,6 @@ def run(ctx):
     ctx.floor("R2", 10)   # public entry points (and orphan helpers) that reach a .fit/.fit_transform call
     ctx.floor("R3", 150)  # 210 functions scanned; 8 generator constructions, 4 parameter/attribute draws, 6 delayed sites
     ctx.floor("R4", 35)   # 43 classes
-    ctx.floor("R7", 45)   # apply-type entry points of the anchored classes
+    ctx.floor("R7", 70)   # apply-type entry points of the anchored classes
     ctx.floor("R6", 30)   # classes with a fit method
     ctx.floor("R5", 10)   # 6 Parallel sites (source/index + consumer each) + 1 cross-method pairing
